@@ -230,6 +230,7 @@ type VC struct {
 	sorts  map[Sort]bool
 	// values worth printing in a model (inputs)
 	watch []Term
+	quant int // >0 while translating the body of a quantifier
 }
 
 func newVC(name string) *VC {
@@ -258,6 +259,9 @@ func (vc *VC) decl(s string) { vc.decls = append(vc.decls, s) }
 
 // fresh declares an unconstrained constant.
 func (vc *VC) fresh(prefix string, sort Sort) Term {
+	if vc.quant > 0 {
+		panic("a fresh value is needed inside a quantifier body (" + prefix + "): not supported")
+	}
 	n := vc.freshName(prefix)
 	vc.cmds = append(vc.cmds, fmt.Sprintf("(declare-const %s %s)", n, sort))
 	return T(sort, n)
@@ -265,7 +269,7 @@ func (vc *VC) fresh(prefix string, sort Sort) Term {
 
 // define names a term.
 func (vc *VC) define(prefix string, t Term) Term {
-	if !strings.ContainsAny(t.S, "( ") {
+	if !strings.ContainsAny(t.S, "( ") || vc.quant > 0 {
 		return t
 	}
 	n := vc.freshName(prefix)
@@ -274,7 +278,7 @@ func (vc *VC) define(prefix string, t Term) Term {
 }
 
 func (vc *VC) assume(t Term) {
-	if t.S == "true" {
+	if t.S == "true" || vc.quant > 0 {
 		return
 	}
 	vc.cmds = append(vc.cmds, fmt.Sprintf("(assert %s)", t.S))
